@@ -212,6 +212,12 @@ namespace plan
             amount = m.rr_caps[ri];
           std::string nm = "u" + std::to_string(m.n_formulas++);
           bt += " fact " + nm + " = new " + m.rr_names[ri] + ".Use(amount:" + qtext(amount) + ", duration:" + qtext(mpq_class(modn(ud, 3) + 1)) + ", start:" + qtext(mpq_class(modn(us, 4))) + ");";
+          auto f = std::make_shared<BodyItem>(); // the branch is not constraint-only: the references (z3, disjunct evaluation) must know
+          f->k = BodyItem::SUBGOAL;
+          f->pred = -2;
+          f->is_fact = true;
+          f->local = nm;
+          items.push_back(f);
         }
         if (bt.empty())
           return;
